@@ -88,7 +88,7 @@ LEMMAS = [
 
 
 def _c12_workbooks(rnd, n, W):
-    wbs = [w for w in W.grammar(rnd, n, with_unbounded=True) if w.name != 'text' or True]
+    wbs = [w for w in W.grammar(rnd, n, with_unbounded=True) if w.name != 'text' or True] + W.random_dags(rnd, max(2, n // 2))
     wbs += [
         # small magnitudes (farads, seconds, probabilities)
         W.WB({'A1': 1e-3, 'A2': 3e-6}, {'B1': '=A1*A2', 'C1': '=B1+1', 'D1': '=B1*2'}, 'small'),
